@@ -11,8 +11,12 @@ booleans are 0/1.
   (`encodeBytes`), `encodeInt32`, `encodeBits`/`encodeBoolean`, `encodeDict`. The Go loops append
   to `dst` run by run; the mirror returns the list of runs (`Run`) in the same order and
   `serialize` writes each run the way `appendRunLength*` / `appendBitPacked*` do.
-  The bit packing kernels themselves (`encodeBytesBitpackDefault`, `bitpack.Pack`) are modelled as
-  LSB-first packing of the values masked to the bit width (`packBytes`), tied by L2 only.
+  Bit-packed payloads are written as `packBytes` (LSB-first packing of the values masked to the bit
+  width). That this is what the portable kernels compute is proved about their transliterations in
+  `RleDecode.lean`: `encodeBytesBitpackDefault` (`levels_pack_kernel`) and the third-party
+  `bitpack.Pack` / `packInt32Default` (`int32_pack_kernel`); likewise for the decoding kernels
+  (`levels_unpack_kernel`, `int32_unpack_kernel`). The assembly kernels (BMI2 / AVX2 / bitpack amd64)
+  are tied by L2 only. The Go DECODERS are mirrored in `RleDecode.lean`.
 -/
 namespace PqModel.Rle
 open PqModel.Bits
